@@ -44,7 +44,7 @@ def valueOK (env : Env) (c i : Nat) : Val → Bool
   | .bool b => firstIdx env c (.bool b) == some i
   | .int k => firstIdx env c (.int k) == some i
   | .str s =>
-    match strload? s with
+    match pySl? s with
     | none => false
     | some d =>
       match firstIdx env c d with
@@ -118,7 +118,13 @@ theorem parseVal_not_member (c : Nat) : ∀ (n : Nat) (toks : List Tok) (v : Val
            | cases h)
       | cases h
 
-theorem strload_not_member (c : Nat) {s : Str} {d : Val} (h : strload? s = some d) :
+theorem pySl_eq (s : Str) : pySl s = match pySl? s with | some v => .ok v | none => .error .unsupported := by
+  unfold pySl pySl?
+  cases strload? s with
+  | some v => rfl
+  | none => cases (uuidParse? s).isSome <;> rfl
+
+theorem strloadFrag_not_member (c : Nat) {s : Str} {d : Val} (h : strload? s = some d) :
     isMemberOf c d = false := by
   unfold strload? at h
   split at h
@@ -142,6 +148,21 @@ theorem strload_not_member (c : Nat) {s : Str} {d : Val} (h : strload? s = some 
           · cases h; rfl
           · cases h
 
+theorem strload_not_member (c : Nat) {s : Str} {d : Val} (h : pySl? s = some d) :
+    isMemberOf c d = false := by
+  unfold pySl? at h
+  cases hs : strload? s with
+  | some v =>
+    rw [hs] at h
+    cases h
+    exact strloadFrag_not_member c hs
+  | none =>
+    rw [hs] at h
+    simp only at h
+    split at h
+    · cases h; rfl
+    · cases h
+
 /-! ### What the enum routine computes on a primitive value, with the executable leaves -/
 
 def foundOr (c : Nat) (o : Option Nat) (els : R Val) : R Val :=
@@ -161,12 +182,12 @@ theorem umEnum_int (env : Env) (today : Int) (c : Nat) (k : Int) :
 
 theorem umEnum_str (env : Env) (today : Int) (c : Nat) (s : Str) :
     umEnum env (pyLeaves env today) c (.str s) =
-      match strload? s with
+      match pySl? s with
       | none => .error .unsupported
       | some d => foundOr c (firstIdx env c d) (foundOr c (firstIdx env c (.str s)) (.error .value)) := by
   have hl : load env (pyLeaves env today) (.str s) = pySl s := rfl
-  simp only [umEnum, hl, pySl]
-  cases hs : strload? s with
+  simp only [umEnum, hl, pySl_eq]
+  cases hs : pySl? s with
   | none => rfl
   | some d =>
     have hnm := strload_not_member c hs
@@ -190,7 +211,7 @@ theorem valueOK_iff (env : Env) (today : Int) (c i : Nat) (w : Val)
     cases h : firstIdx env c (.int k) <;> simp [valueOK, foundOr, h]
   case str s =>
     rw [umEnum_str]
-    cases hs : strload? s with
+    cases hs : pySl? s with
     | none => simp [valueOK, hs]
     | some d =>
       cases h1 : firstIdx env c d with
